@@ -50,6 +50,7 @@ type FuncContract struct {
 	Requires    []Clause
 	Ensures     []Clause
 	OnReturn    []Clause
+	OnCbReturn  []Clause // at the return of a closure running as a callback in this function's context
 	Modifies    []ast.Expr
 	HasModifies bool
 	ModAll      bool
@@ -491,6 +492,13 @@ func (c *Contracts) loadContractFile(path, pkgPath string) {
 			case "on":
 				// on return assert label: expr
 				i := strings.Index(rest, "assert ")
+				if strings.HasPrefix(rest, "callback return") && i >= 0 {
+					// on callback return assert label: expr -- at the end of an invocation of a closure that
+					// runs as a callback in the context of this function (names resolve lexically: the
+					// closure's own variables first, then this function's)
+					cur.OnCbReturn = append(cur.OnCbReturn, c.clause(strings.TrimSpace(rest[i+len("assert "):]), pos))
+					continue
+				}
 				if !strings.HasPrefix(rest, "return") || i < 0 {
 					c.errf("%s: expected 'on return assert ...'", pos)
 					continue
